@@ -2,7 +2,7 @@
 secp256k1 + Keccak + EIP-55 as third opinion."""
 from coqrun import pb
 from gen import prims, pyref
-from gen.util import SECP_N, lib_vs_model, rbytes, short
+from gen.util import SECP_N, comparison_path_values, lib_vs_model, rbytes, short
 
 NEEDS = dict(cli=True, harness=True, shim=False, release=False)
 RULE = ("32-byte secrets 1,2,3,n-2,n-1 and random (accepted), 0, n, n+1, 2^256-1 (refused); every length 0..64 with a small "
@@ -29,6 +29,15 @@ def run(ctx):
     for v in [(NHI << 128) | ((1 << 128) - 1), (((1 << 128) - 1) << 128) | 5, (((1 << 128) - 1) << 128) | (NLO - 1), (NHI + 1) << 128,
               (NHI << 128) | (NLO - 1), NHI << 128, ((NHI - 1) << 128) | ((1 << 128) - 1), (1 << 128) - 1, 1 << 128]:
         ins.append((v.to_bytes(32, "big"), "len32/half-pattern"))
+    for bits in (32, 64, 128):
+        for v in comparison_path_values(N, bits):
+            ins.append((v.to_bytes(32, "big"), "len32/comparison-path"))
+    # byte strings that look like another representation of a key (ASCII hex text with 0x, decimal text)
+    for nd in list(range(22, 66, 2)) + [23, 31, 63]:
+        t = ("0x" + "".join(rng.choice("0123456789abcdef") for _ in range(nd))).encode()
+        ins.append((t, "looks-like-hex-text/len%s" % ("24-31" if 24 <= len(t) < 32 else "32" if len(t) == 32 else "other")))
+    ins.append((b"0x" + b"0123456789abcdef0123456789abcd", "looks-like-hex-text/len32"))
+    ins.append((b"1" * 32, "looks-like-hex-text/len32"))
     for _ in range(24 if not thorough else 300):
         ins.append((rng.randrange(1, N).to_bytes(32, "big"), "len32/random"))
     # consecutive small secrets, chosen so that every value 0x00..0xff occurs as the first byte of X and as the first byte of Y
